@@ -160,6 +160,43 @@ def _prim_invert(a, b, si, kind, mi):
     return rt.fin(ok, why)
 
 
+def ob_prim_invert_around(a: int, b: int, ga: int, gb: int, ri: int, ins: int) -> bool:
+    """post: _"""
+    return rt.run(_prim_invert_around, a, b, ga, gb, ri, ins)
+
+
+def _prim_invert_around(a, b, ga, gb, ri, ins):
+    """Exact undo of a successfully applied ReplaceAroundStep (gap anywhere inside [a, b], also inside text)."""
+    C = c01_steps.C
+    if not (0 <= a <= ga <= gb <= b <= C.size and 0 <= ri < len(C.ras)):
+        return rt.SKIP
+    if a != P["a"] or b != P["b"]:
+        return rt.SKIP
+    for x in (a, b, ga, gb):
+        if C.is_split(x):
+            return rt.SKIP
+    ri = rt.pick(ri, 0, len(C.ras) - 1)
+    if "ras" in P and ri not in P["ras"]:
+        return rt.SKIP
+    sl, _nat = C.ras[ri]
+    if not (0 <= ins <= sl.size):
+        return rt.SKIP
+    step = c01_steps.ReplaceAroundStep(a, b, ga, gb, sl, ins, False)
+    try:
+        res = step.apply(C.doc)
+    except ValueError:
+        return rt.SKIP
+    if res.failed is not None:
+        return rt.SKIP
+    inv = step.invert(C.doc)
+    back = inv.apply(res.doc)
+    ok = back.failed is None and back.doc is not None and back.doc.eq(C.doc)
+    if ok:
+        from engine.oracle.tokens import doc_tokens
+        ok = doc_tokens(back.doc) == C.tok
+    return rt.fin(ok, "inverted ReplaceAroundStep does not restore the document")
+
+
 QUICK = [("list", 1), ("strict", 0)]
 QUICK_LIST_KINDS = ["lift", "wrap", "split", "join", "delete_range", "delete"]
 TWO_QUICK = [("delete", "add_mark"), ("split", "join")]
@@ -188,6 +225,13 @@ def obligations(tier, seed):
     prim = [("list", 1, [0, 2]), ("list", 4, [1]), ("docmarks", 0, [3, 4]), ("docmarks", 2, [3, 4]), ("mx1", 1, [3, 4])] if tier == "quick" else \
         [("list", i, [0, 2]) for i in (1, 2, 4, 7, 11)] + [("list", 4, [1]), ("list", 8, [1]), ("strict", 0, [0, 1]), ("table", 0, [0]),
                                                     ("docmarks", 0, [0, 3, 4]), ("docmarks", 1, [3, 4]), ("mx1", 1, [3, 4]), ("mx5", 2, [3, 4])]
+    for (sn, i) in ([("list", 1)] if tier == "quick" else [("list", 1), ("list", 4), ("strict", 0), ("iso", 1)]):
+        C_ = common.load({"schema": sn, "doc": i})
+        spans = [(k, C_.pm.match[k] + 1) for k, t in enumerate(C_.tok) if t[0] == "open"][: (3 if tier == "quick" else 6)]
+        for (o, c) in spans + [(0, C_.size)]:
+            for ri in ([0, 1, 2, 5, 9, 10] if tier == "quick" else list(range(13))):
+                obs.append({"name": "prim-invert-around/%s#%d/%d-%d/r%d" % (sn, i, o, c, ri), "fn": "ob_prim_invert_around",
+                            "P": {"schema": sn, "doc": i, "prim": True, "a": o, "b": c, "ras": [ri]}, "timeout": T, "allow_vacuous": True})
     for (sn, i, pks) in prim:
         p = {"schema": sn, "doc": i, "prim": True}
         if tier == "quick":
